@@ -3139,7 +3139,9 @@ class Query(
         )
 
         ezero = self._entity_from_pre_ent_zero()
-        if ezero is not None:
+        if ezero is not None and not self._from_obj:
+            # only needed when the FROM list was being inferred from the
+            # columns; an explicit select_from() already states it
             inner = inner.select_from(ezero)
 
         return sql.exists(inner)
